@@ -301,6 +301,19 @@ func (c *Context) HandleEnvelop(envelop vivid.Envelop) {
 	// - 普通消息一律推入死信队列
 	// - 系统消息在 killing 阶段仍需要处理（例如子 Actor 的 OnKilled 事件），否则终止流程无法闭环
 	currentState := atomic.LoadInt32(&c.state)
+	if c.parent == nil {
+		// findMailbox 在目标不存在（从未存在或已终止）时以根 Actor 的邮箱兜底；这类消息并非发给根 Actor，
+		// 不能被当作根 Actor 自己的消息处理（否则一条 Kill 会终止整个系统），应作为死信发布
+		if receiver, ok := envelop.Receiver().(*Ref); ok && receiver != nil && receiver.path != c.ref.path {
+			if currentState == running {
+				c.system.TellSelf(ves.DeathLetterEvent{
+					Envelope: envelop,
+					Time:     time.Now(),
+				})
+			}
+			return
+		}
+	}
 	killingOrKilled := (currentState == killed) || (!envelop.System() && currentState != running) // 是否处于停止中或死亡状态
 	if killingOrKilled && !c.zombie {                                                             // 是否处于僵尸状态
 		if c.parent == nil {
